@@ -66,6 +66,7 @@ class Profile:
         self.hdr_variants = False
         self.pin_origin = True          # always give file_set_number and creation_time
         self.upper_names = False        # names restricted to [A-Z0-9_-]+
+        self.dtypes = None              # restrict channel dtypes (list of codes like 'f8'); None = all eight
         self.number_pool = None         # draw every number from this small pool (C14: equal-but-distinct values)
         self.text_pool = None
         self.full_attrs = False         # channel dimension/element_limit/axis and all frame attributes too
@@ -306,7 +307,7 @@ def draw_attrs(draw, kind, g, only=None, exclude=()):
 # ------------------------------------------------------------------ arrays and frames
 
 def draw_array(draw, profile, rows, dt=None, width=None, index_like=False):
-    code = dt or draw(st.sampled_from(DTYPES))
+    code = dt or draw(st.sampled_from(list(profile.dtypes or DTYPES)))
     bo = '|' if code.endswith('1') else draw(st.sampled_from(list(profile.byte_orders)))
     dts = bo + code
     if width is None:
@@ -340,7 +341,8 @@ def draw_array(draw, profile, rows, dt=None, width=None, index_like=False):
 def draw_index_array(draw, profile, rows):
     """1-D index channel: finite, mostly monotone values (index semantics belong to C13)."""
     import numpy as np
-    code = draw(st.sampled_from(['f8', 'f4', 'i4', 'u2', 'i2', 'u4', 'f8']))
+    code = draw(st.sampled_from([c for c in ['f8', 'f4', 'i4', 'u2', 'i2', 'u4', 'f8']
+                                 if not profile.dtypes or c in profile.dtypes]))
     bo = draw(st.sampled_from(list(profile.byte_orders)))
     start = draw(st.integers(0, 100))
     step = draw(st.integers(1, 5))
